@@ -64,6 +64,17 @@ pub fn passes(tier: &str) -> Vec<Pass> {
     v
 }
 
+pub fn bodies(tier: &str) -> Vec<crate::e3::BodySpec> {
+    use crate::props::c06::{Act, Finals, Kind, VisBody};
+    use std::sync::Arc;
+    let q = tier == "quick";
+    let b = |body: VisBody, bound: usize, secs: f64| crate::e3::BodySpec { body: Arc::new(body), bound, secs };
+    vec![
+        b(VisBody { name: "clear x || insert x.a, then reopen", kind: Kind::Plain, workers: 0, keyspaces: vec!["x"], initial: vec![("x", "a", "0"), ("x", "b", "0")], prerotate: vec![], threads: vec![vec![Act::Clear("x")], vec![Act::Ins(("x", "a", "1"))]], finals: Finals::ReopenSame }, 2, if q { 5.0 } else { 120.0 }),
+        b(VisBody { name: "batch || clear y || insert, then reopen", kind: Kind::Plain, workers: 0, keyspaces: vec!["x", "y"], initial: vec![("x", "a", "0"), ("y", "a", "0")], prerotate: vec![], threads: vec![vec![Act::Batch(vec![("x", "a", "1"), ("y", "a", "1")])], vec![Act::Clear("y")], vec![Act::Ins(("y", "b", "2"))]], finals: Finals::ReopenSame }, if q { 1 } else { 2 }, if q { 6.0 } else { 200.0 }),
+    ]
+}
+
 pub fn run(tier: &str) -> i32 {
     let t0 = Instant::now();
     let mut o = Outcome::new("C04", tier, "model_checking");
@@ -77,11 +88,21 @@ pub fn run(tier: &str) -> i32 {
     if wit.reopened == 0 || wit.flushed == 0 {
         o.machinery_errors.push(format!("reachability witness missing: {:?}", wit));
     }
+    crate::e3::fold_e3(&mut o, "C04", tier, &bodies(tier), "e3_");
     o.wall_s = t0.elapsed().as_secs_f64();
     finish(o)
 }
 
 pub fn replay(v: &serde_json::Value) -> i32 {
+    if v["engine"] == "E3-schedcheck" {
+        let tier = v["variant"]["tier"].as_str().unwrap_or("quick");
+        let bi = v["variant"]["body_index"].as_u64().unwrap_or(0) as usize;
+        let choices: Vec<usize> = v["variant"]["choices"].as_array().map(|a| a.iter().filter_map(|c| c.as_u64().map(|c| c as usize)).collect()).unwrap_or_default();
+        return match bodies(tier).get(bi) {
+            Some(b) => crate::e3::replay_schedule(&*b.body, &choices),
+            None => 2,
+        };
+    }
     let name = v["variant"]["pass"].as_str().unwrap_or("");
     let plen = v["variant"]["prefix_len"].as_u64().unwrap_or(0) as usize;
     let program: Vec<String> = v["program"].as_array().map(|a| a.iter().filter_map(|s| s.as_str().map(String::from)).collect()).unwrap_or_default();
